@@ -37,7 +37,7 @@ CHECKS = {
              "the four description slots is dominated by __validate_description (and nothing called earlier may write them), that the m-line "
              "match is order-sensitive, that close() latches and sets signalingState to closed before suspending, the description-slot updates per type, and that the per-section structural checks reject "
              "defective audio / video / application sections alike whatever the connection has been through before (history domain over the fields the check reads), that the "
-             "RTCSessionDescription constructor accepts exactly the four SDP types, and which of createOffer / createAnswer the implicit setLocalDescription() calls in each state; in addition every call sequence up to length 3 (quick) / 4 (thorough) over 13 actions of the property's alphabet "
+             "RTCSessionDescription constructor accepts exactly the four SDP types, and which of createOffer / createAnswer the implicit setLocalDescription() calls in each state; in addition every call sequence up to length 3 (quick) / 4 (thorough) over 15 actions of the property's alphabet "
              "is driven through the real methods (interpreted at the AST level, stand-in transports, descriptions of the peer manufactured by helper connections) and compared with the JSEP table, refused calls leaving state and slots identical (C14-SIM). These determine the state machine for all call sequences "
              "over the property's alphabet; pranswer/rollback and side effects outside the five slots are not decided.",
         ref="DESIGN.md section 3 C14"),
